@@ -40,5 +40,13 @@ ASSUMPTIONS = [
     "split_on_char_n(n>0) yields n pieces plus the rest of the string; which error code a refusal raises is checked only where "
     "byte_buf.h names it (DEST_COPY_TOO_SMALL, STRING_MATCH_NOT_FOUND), otherwise any registered code; pure out-parameters of a "
     "failed call are not constrained except where the header says so (buf_advance nulls its output)",
-    "filerd: libc's fread/feof/ferror/fstat are interposed with -Wl,--wrap for the harness link only; fopen/fileno/fclose stay real",
+    "where the header leaves the resulting capacity open (init_copy, init_cache_and_update_cursors, append_dynamic growth, "
+    "reserve_smart) any capacity that holds the contents is accepted and followed (counter capacity_differs_from_reference_rule; "
+    "0 on the current tree, which doubles); after clean_up only len/capacity/buffer are required to be cleared",
+    "filerd: libc's fread/feof/ferror/fstat are interposed with -Wl,--wrap for the harness link only; fopen/fileno/fclose stay real; "
+    "the 'eager' end-of-file mode (EOF flag already set by a read that was satisfied in full) is an environment glibc regular files "
+    "do not produce; it is included because file.c's final grow-by-one for the terminator exists for it; a failed call must leave "
+    "len/capacity/buffer of out_buf cleared and nothing allocated",
+    "thorough tier repeats bufw (capacity<=3 fixpoint, capacity<=6 depth 5), cur and filerd against the Debug build of the library "
+    "(its AWS_PRECONDITION/AWS_POSTCONDITION checks abort on the first contradiction)",
 ]
